@@ -1503,7 +1503,9 @@ fn fmt_error_terminal_safe(
     if crate::de_snipped::is_terminal_snippet_clean(&raw) {
         f.write_str(&raw)
     } else {
-        f.write_str(&crate::de_snipped::sanitize_terminal_snippet_preserve_len(raw))
+        f.write_str(&crate::de_snipped::sanitize_terminal_snippet_preserve_len(
+            raw,
+        ))
     }
 }
 
